@@ -8,10 +8,13 @@
    1 MiB line of one repeated byte is a single pair.  The parsers only ever look at the next
    byte ([uncons]) or skip a class of bytes ([skip_while], [span_not]).
 
-   The symbol table is summarised by what the harness can observe without re-implementing
-   range maps (that is C08): distinct FILE ids, distinct INLINE_ORIGIN ids, number of
-   PUBLIC records, presence of INFO URL, and the line counter. *)
-From RM Require Import Base.Word.
+   Every parser returns the parsed record; SymbolParser's state holds the records in file
+   order and [finish] (finish_item + SymbolParser::finish) builds the canonical symbol table:
+   line tables and FUNC / STACK CFI / STACK WIN tables with C08's range-map builder, the
+   publics / inlinee / CFI-delta sorts, the zero-size filters, insert_win_stack_info.
+   Record types for line records and inlinees are C11's. Strings are kept run-length encoded
+   in normal form ([rle_norm]) so that == and the derived Ord on String are [rle_eqb]/[rle_lt]. *)
+From RM Require Import Base.Word C08.Model C11.Model.
 Open Scope Z_scope.
 
 Definition rle := list (Z * Z).
@@ -148,14 +151,55 @@ Fixpoint utf8_from (st : Z * Z * Z) (s : rle) : bool :=
   end.
 Definition utf8_ok (s : rle) : bool := utf8_from (0, 128, 191) s.
 
+(* ------------------------------------------------------------------ strings (String ==, Ord) *)
+(* normal form: positive counts, adjacent runs have different bytes *)
+Fixpoint rle_norm_acc (s : rle) (acc : rle) : rle :=
+  match s with
+  | [] => rev_append acc []
+  | (b, c) :: t =>
+      let c := Z.max 1 c in
+      match acc with
+      | (b0, c0) :: acc' => if b0 =? b then rle_norm_acc t ((b0, c0 + c) :: acc')
+                            else rle_norm_acc t ((b, c) :: acc)
+      | [] => rle_norm_acc t [(b, c)]
+      end
+  end.
+Definition rle_norm (s : rle) : rle := rle_norm_acc s [].
+
+Fixpoint rle_eqb (a b : rle) : bool :=
+  match a, b with
+  | [], [] => true
+  | (x, c) :: a', (y, d) :: b' => (x =? y) && (c =? d) && rle_eqb a' b'
+  | _, _ => false
+  end.
+
+(* byte-wise lexicographic comparison of two strings in normal form *)
+Fixpoint rle_cmp (fuel : nat) (a b : rle) : comparison :=
+  match fuel with
+  | O => Eq
+  | S f =>
+      match a, b with
+      | [], [] => Eq
+      | [], _ :: _ => Lt
+      | _ :: _, [] => Gt
+      | (x, c) :: a', (y, d) :: b' =>
+          if x <? y then Lt else if y <? x then Gt
+          else if c =? d then rle_cmp f a' b'
+          else if c <? d then rle_cmp f a' ((y, d - c) :: b')
+          else rle_cmp f ((x, c - d) :: a') b'
+      end
+  end.
+Definition rle_compare (a b : rle) : comparison := rle_cmp (S (length a + length b)) a b.
+
 (* ------------------------------------------------------------------ line endings, strings *)
 (* my_eol = `\r*` then '\n'; the '\n' is the (implicit) end of the line *)
 Definition eol (s : rle) : bool :=
   match skip_while is_cr s with [] => true | _ => false end.
 
 (* terminated(map_res(not_my_eol, str::from_utf8), my_eol) *)
-Definition name_eol (s : rle) : bool :=
-  let (name, r) := span_not is_cr s in utf8_ok name && eol r.
+Definition name_eol (s : rle) : option rle :=
+  let (name, r) := span_not is_cr s in
+  if utf8_ok name && eol r then Some (rle_norm name) else None.
 (* terminated(not_my_eol, my_eol) *)
 Definition raw_eol (s : rle) : bool :=
   let (_, r) := span_not is_cr s in eol r.
@@ -177,8 +221,22 @@ Definition hdr (t : list Z) (s : rle) : option rle :=
 Notation "'let?' x := e 'in' k" := (match e with Some x => k | None => None end)
   (at level 200, x pattern, e at level 100, k at level 200).
 
+(* ------------------------------------------------------------------ records *)
+Record pub_sym := mk_pubs { pb_addr : Z; pb_name : rle; pb_psize : Z }.
+(* Function while its sub-lines are collected (lines / inlinees latest first) *)
+Record func_raw := mk_fr { fr_addr : Z; fr_size : Z; fr_psize : Z; fr_name : rle;
+                           fr_lines : list line_rec; fr_inls : list inl_rec }.
+Record cfi_rule := mk_rule { cr_addr : Z; cr_rules : rle }.
+Record cfi_raw := mk_cfi { ci_init : cfi_rule; ci_size : Z; ci_add : list cfi_rule }.   (* add_rules latest first *)
+Inductive win_thing := ProgramString (s : rle) | AllocatesBasePointer (b : bool).
+Record win_info := mk_wi { wi_addr : Z; wi_size : Z; wi_prolog : Z; wi_epilog : Z; wi_params : Z;
+                           wi_saved : Z; wi_locals : Z; wi_maxstack : Z; wi_thing : win_thing }.
+Inductive win_frame_type := FrameData (i : win_info) | Fpo (i : win_info) | Unhandled.
+
 Inductive item :=
-| IModule | IUrl | IInfo | IFile (id : Z) | IOrigin (id : Z) | IPublic | IFunc | IWin | ICfiInit.
+| IModule (id file : rle) | IUrl (u : rle) | IInfo | IFile (id : Z) (name : rle)
+| IOrigin (id : Z) (name : rle) | IPublic (p : pub_sym) | IFunc (f : func_raw)
+| IWin (w : win_frame_type) | ICfiInit (c : cfi_raw).
 
 (* opt(terminated(tag("m"), space1)) *)
 Definition opt_m (s : rle) : rle :=
@@ -190,7 +248,7 @@ Definition opt_m (s : rle) : rle :=
 Definition p_info_url (s : rle) : pres item :=
   match hdr T_INFO_URL s with
   | None => PErr
-  | Some s1 => cutp (guard (name_eol s1) IUrl)
+  | Some s1 => cutp (let? u := name_eol s1 in Some (IUrl u))
   end.
 
 Definition p_info (s : rle) : pres item :=
@@ -199,19 +257,19 @@ Definition p_info (s : rle) : pres item :=
   | Some s1 => cutp (guard (raw_eol s1) IInfo)
   end.
 
-Definition id_name (s : rle) : option Z :=
-  let? (id, s1) := decsp s in guard (name_eol s1) id.
+Definition id_name (s : rle) : option (Z * rle) :=
+  let? (id, s1) := decsp s in let? n := name_eol s1 in Some (id, n).
 
 Definition p_file (s : rle) : pres item :=
   match hdr T_FILE s with
   | None => PErr
-  | Some s1 => cutp (let? id := id_name s1 in Some (IFile id))
+  | Some s1 => cutp (let? (id, n) := id_name s1 in Some (IFile id n))
   end.
 
 Definition p_inline_origin (s : rle) : pres item :=
   match hdr T_INLINE_ORIGIN s with
   | None => PErr
-  | Some s1 => cutp (let? id := id_name s1 in Some (IOrigin id))
+  | Some s1 => cutp (let? (id, n) := id_name s1 in Some (IOrigin id n))
   end.
 
 Definition p_public (s : rle) : pres item :=
@@ -219,9 +277,10 @@ Definition p_public (s : rle) : pres item :=
   | None => PErr
   | Some s1 =>
       cutp (let s2 := opt_m s1 in
-            let? (_, s3) := hex64sp s2 in
-            let? (_, s4) := hex32sp s3 in
-            guard (name_eol s4) IPublic)
+            let? (a, s3) := hex64sp s2 in
+            let? (ps, s4) := hex32sp s3 in
+            let? n := name_eol s4 in
+            Some (IPublic (mk_pubs a n ps)))
   end.
 
 Definition p_func (s : rle) : pres item :=
@@ -229,43 +288,57 @@ Definition p_func (s : rle) : pres item :=
   | None => PErr
   | Some s1 =>
       cutp (let s2 := opt_m s1 in
-            let? (_, s3) := hex64sp s2 in
-            let? (_, s4) := hex32sp s3 in
-            let? (_, s5) := hex32sp s4 in
-            guard (name_eol s5) IFunc)
+            let? (a, s3) := hex64sp s2 in
+            let? (sz, s4) := hex32sp s3 in
+            let? (ps, s5) := hex32sp s4 in
+            let? n := name_eol s5 in
+            Some (IFunc (mk_fr a sz ps n [] [])))
   end.
 
 (* terminated(single(pred), space1) *)
-Definition single_sp (pred : Z -> bool) (s : rle) : option rle :=
+Definition single_sp (pred : Z -> bool) (s : rle) : option (Z * rle) :=
   match uncons s with
-  | Some (b, s1) => if pred b then space1 s1 else None
+  | Some (b, s1) => if pred b then (let? s2 := space1 s1 in Some (b, s2)) else None
   | None => None
   end.
+
+(* the tail of stack_win_line, on the parsed fields *)
+Definition win_of_fields (ty : Z) (a sz pro epi par sav loc mx : Z) (hp : Z) (rest : rle) : win_frame_type :=
+  let really := ty =? 52 in            (* ty == b'4' *)
+  let has := hp =? 49 in               (* has_program_string: digit == b'1' *)
+  if negb (Bool.eqb really has) then Unhandled
+  else
+    let thing := if really then ProgramString rest
+                 else AllocatesBasePointer (rle_eqb rest [(49, 1)]) in
+    let i := mk_wi a sz pro epi par sav loc mx thing in
+    if ty =? 52 then FrameData i else if ty =? 48 then Fpo i else Unhandled.
 
 Definition p_stack_win (s : rle) : pres item :=
   match hdr T_STACK_WIN s with
   | None => PErr
   | Some s0 =>
-      cutp (let? s1 := single_sp is_hex s0 in
-            let? (_, s2) := hex64sp s1 in
-            let? (_, s3) := hex32sp s2 in
-            let? (_, s4) := hex32sp s3 in
-            let? (_, s5) := hex32sp s4 in
-            let? (_, s6) := hex32sp s5 in
-            let? (_, s7) := hex32sp s6 in
-            let? (_, s8) := hex32sp s7 in
-            let? (_, s9) := hex32sp s8 in
-            let? s10 := single_sp is_dec s9 in
-            guard (name_eol s10) IWin)
+      cutp (let? (ty, s1) := single_sp is_hex s0 in
+            let? (a, s2) := hex64sp s1 in
+            let? (sz, s3) := hex32sp s2 in
+            let? (pro, s4) := hex32sp s3 in
+            let? (epi, s5) := hex32sp s4 in
+            let? (par, s6) := hex32sp s5 in
+            let? (sav, s7) := hex32sp s6 in
+            let? (loc, s8) := hex32sp s7 in
+            let? (mx, s9) := hex32sp s8 in
+            let? (hp, s10) := single_sp is_dec s9 in
+            let? rest := name_eol s10 in
+            Some (IWin (win_of_fields ty a sz pro epi par sav loc mx hp rest)))
   end.
 
 Definition p_stack_cfi_init (s : rle) : pres item :=
   match hdr T_STACK_CFI_INIT s with
   | None => PErr
   | Some s1 =>
-      cutp (let? (_, s2) := hex64sp s1 in
-            let? (_, s3) := hex32sp s2 in
-            guard (name_eol s3) ICfiInit)
+      cutp (let? (a, s2) := hex64sp s1 in
+            let? (sz, s3) := hex32sp s2 in
+            let? r := name_eol s3 in
+            Some (ICfiInit (mk_cfi (mk_rule a r) sz [])))
   end.
 
 (* non_space (stops at ' ', '\r', '\n') + from_utf8, then space1 *)
@@ -273,9 +346,14 @@ Definition nonspace_sp (s : rle) : option rle :=
   let (f, r) := span_not (fun b => (b =? 32) || (b =? 13) || (b =? 10)) s in
   if utf8_ok f then space1 r else None.
 
-Definition hexdigit1_sp (s : rle) : option rle :=
+(* hex_digit1 + from_utf8 (always valid), then space1 *)
+Definition hexdigit1_sp (s : rle) : option (rle * rle) :=
   match s with
-  | (b, _) :: _ => if is_hex b then space1 (skip_while is_hex s) else None
+  | (b, _) :: _ =>
+      if is_hex b then
+        let (d, r) := span_not (fun b => negb (is_hex b)) s in
+        let? r' := space1 r in Some (rle_norm d, r')
+      else None
   | [] => None
   end.
 
@@ -285,8 +363,9 @@ Definition p_module (s : rle) : pres item :=
   | Some s1 =>
       cutp (let? s2 := nonspace_sp s1 in
             let? s3 := nonspace_sp s2 in
-            let? s4 := hexdigit1_sp s3 in
-            guard (name_eol s4) IModule)
+            let? (id, s4) := hexdigit1_sp s3 in
+            let? f := name_eol s4 in
+            Some (IModule id f))
   end.
 
 (* alt((...)): first Ok or first Failure wins *)
@@ -306,122 +385,283 @@ Definition line_top (s : rle) : option item :=
 
 (* ------------------------------------------------------------------ sub-lines *)
 (* STACK CFI <addr> <rules> while a STACK CFI INIT item is open *)
-Definition sub_cfi (s : rle) : bool :=
-  match hdr T_STACK_CFI s with
-  | None => false
-  | Some s1 => match hex64sp s1 with
-               | Some (_, s2) => name_eol s2
-               | None => false
-               end
-  end.
+Definition sub_cfi (s : rle) : option cfi_rule :=
+  let? s1 := hdr T_STACK_CFI s in
+  let? (a, s2) := hex64sp s1 in
+  let? r := name_eol s2 in
+  Some (mk_rule a r).
 
 (* <address> <size> <line> <file> *)
-Definition sub_line_data (s : rle) : bool :=
-  match (let? (_, s1) := hex64sp s in
-         let? (_, s2) := hex32sp s1 in
-         let? (_, s3) := decsp s2 in
-         let? (_, s4) := decimal_u32 s3 in
-         guard (eol s4) tt) with
-  | Some _ => true
-  | None => false
-  end.
+Definition sub_line_data (s : rle) : option line_rec :=
+  let? (a, s1) := hex64sp s in
+  let? (sz, s2) := hex32sp s1 in
+  let? (ln, s3) := decsp s2 in
+  let? (fl, s4) := decimal_u32 s3 in
+  guard (eol s4) (mk_line a sz fl ln).
 
-Definition addr_range (s : rle) : option rle :=
-  let? (_, s1) := hex64sp s in
-  let? (_, s2) := hex_str 8%nat s1 in
-  Some s2.
+Definition addr_range (s : rle) : option (Z * Z * rle) :=
+  let? (a, s1) := hex64sp s in
+  let? (sz, s2) := hex_str 8%nat s1 in
+  Some (a, sz, s2).
 
-(* separated_list1(space1, inline_address_range) after the first element: returns the input
-   in front of the separator that was not followed by an element *)
-Fixpoint more_ranges (fuel : nat) (s : rle) : rle :=
+(* separated_list1(space1, inline_address_range) after the first element: the ranges (latest
+   first) and the input in front of the separator that was not followed by an element *)
+Fixpoint more_ranges (fuel : nat) (s : rle) (acc : list (Z * Z)) : list (Z * Z) * rle :=
   match fuel with
-  | O => s
+  | O => (acc, s)
   | S f => match space1 s with
-           | None => s
+           | None => (acc, s)
            | Some s1 => match addr_range s1 with
-                        | None => s
-                        | Some s2 => more_ranges f s2
+                        | None => (acc, s)
+                        | Some (a, sz, s2) => more_ranges f s2 ((a, sz) :: acc)
                         end
            end
   end.
 
-Definition sub_inline (s : rle) : bool :=
-  match (let? s0 := hdr T_INLINE s in
-         let? (_, s1) := decsp s0 in
-         let? (_, s2) := decsp s1 in
-         let? (_, s3) := decsp s2 in
-         let? (_, s4) := decsp s3 in
-         let? s5 := addr_range s4 in
-         guard (eol (more_ranges (S (length s5)) s5)) tt) with
-  | Some _ => true
-  | None => false
-  end.
+(* INLINE <depth> <call_line> <call_file> <origin> [<addr> <size>]+ : the Inlinees in line order *)
+Definition sub_inline (s : rle) : option (list inl_rec) :=
+  let? s0 := hdr T_INLINE s in
+  let? (depth, s1) := decsp s0 in
+  let? (cline, s2) := decsp s1 in
+  let? (cfile, s3) := decsp s2 in
+  let? (origin, s4) := decsp s3 in
+  let? (a, sz, s5) := addr_range s4 in
+  let (racc, s6) := more_ranges (S (length s5)) s5 [(a, sz)] in
+  guard (eol s6) (map (fun r => mk_inl depth (fst r) (snd r) cfile cline origin) (rev racc)).
 
-(* parse_func_subline: Some (Some id) = INLINE_ORIGIN id, Some None = INLINE / line record *)
-Definition sub_func (s : rle) : option (option Z) :=
+Inductive subline := SOrigin (id : Z) (name : rle) | SInline (l : list inl_rec) | SLine (l : line_rec).
+
+(* parse_func_subline *)
+Definition sub_func (s : rle) : option subline :=
   match tag T_INLINE_ORIGIN_SP s with
   | Some _ => match p_inline_origin s with
-              | POk (IOrigin id) => Some (Some id)
+              | POk (IOrigin id n) => Some (SOrigin id n)
               | _ => None
               end
   | None =>
       match tag T_INLINE_SP s with
-      | Some _ => if sub_inline s then Some None else None
-      | None => if sub_line_data s then Some None else None
+      | Some _ => let? l := sub_inline s in Some (SInline l)
+      | None => let? l := sub_line_data s in Some (SLine l)
       end
   end.
 
 (* ------------------------------------------------------------------ SymbolParser *)
+Inductive cur_item := CNone | CFunc (f : func_raw) | CCfi (c : cfi_raw).
+
+(* every list is latest first *)
 Record pst := mkp {
-  p_lines : Z;            (* lines *)
-  p_cur : Z;              (* cur_item: 0 none, 1 FUNC, 2 STACK CFI INIT *)
-  p_files : list Z;       (* keys of files *)
-  p_origins : list Z;     (* keys of inline_origins *)
-  p_publics : Z;          (* publics.len() *)
-  p_url : bool            (* url.is_some() *)
+  p_lines : Z;                          (* lines *)
+  p_cur : cur_item;                     (* cur_item *)
+  p_modinfo : rle * rle;                 (* module_id, debug_file *)
+  p_files : list (Z * rle);             (* files: insertion log *)
+  p_origins : list (Z * rle);           (* inline_origins: insertion log *)
+  p_publics : list pub_sym;
+  p_funcs : list func_raw;              (* items handed to finish_item *)
+  p_cfis : list cfi_raw;
+  p_win_fd : list win_info;             (* STACK WIN frame data records handed to insert_win_stack_info *)
+  p_win_fpo : list win_info;
+  p_url : option rle
 }.
 
-Definition init_pst : pst := mkp 0 0 [] [] 0 false.
+Definition init_pst : pst := mkp 0 CNone ([], []) [] [] [] [] [] [] [] None.
 
-Definition ins (id : Z) (l : list Z) : list Z :=
-  if existsb (Z.eqb id) l then l else id :: l.
+Definition set_lines_cur (p : pst) (n : Z) (c : cur_item) : pst :=
+  mkp n c (p_modinfo p) (p_files p) (p_origins p) (p_publics p) (p_funcs p) (p_cfis p)
+      (p_win_fd p) (p_win_fpo p) (p_url p).
 
-Definition bump_pst (p : pst) : pst :=
-  mkp (p_lines p + 1) (p_cur p) (p_files p) (p_origins p) (p_publics p) (p_url p).
+Definition bump_pst (p : pst) : pst := set_lines_cur p (p_lines p + 1) (p_cur p).
 Definition lineno_pst (p : pst) : Z := p_lines p.
 
-(* the top-level part of the loop body of parse_more, cur_item being None *)
+(* finish_item(cur_item.take()): the open item joins the finished ones (what finish_item computes
+   from it depends on the item only: it is applied in [finish]) *)
+Definition close_cur (p : pst) : pst :=
+  match p_cur p with
+  | CNone => p
+  | CFunc f => mkp (p_lines p) CNone (p_modinfo p) (p_files p) (p_origins p) (p_publics p)
+                   (f :: p_funcs p) (p_cfis p) (p_win_fd p) (p_win_fpo p) (p_url p)
+  | CCfi c => mkp (p_lines p) CNone (p_modinfo p) (p_files p) (p_origins p) (p_publics p)
+                  (p_funcs p) (c :: p_cfis p) (p_win_fd p) (p_win_fpo p) (p_url p)
+  end.
+
+(* the top-level part of the loop body of parse_more; cur_item is None *)
 Definition top (p : pst) (s : rle) : pst + Z :=
   let n := p_lines p + 1 in
-  if eol s then inl (mkp n 0 (p_files p) (p_origins p) (p_publics p) (p_url p))
+  if eol s then inl (set_lines_cur p n CNone)
   else match line_top s with
        | None => inr 1
-       | Some IModule =>
-           if p_lines p =? 0 then inl (mkp n 0 (p_files p) (p_origins p) (p_publics p) (p_url p))
+       | Some (IModule id f) =>
+           if p_lines p =? 0 then
+             inl (mkp n CNone (id, f) (p_files p) (p_origins p) (p_publics p) (p_funcs p) (p_cfis p)
+                      (p_win_fd p) (p_win_fpo p) (p_url p))
            else inr 2
-       | Some IUrl => inl (mkp n 0 (p_files p) (p_origins p) (p_publics p) true)
-       | Some IInfo => inl (mkp n 0 (p_files p) (p_origins p) (p_publics p) (p_url p))
-       | Some (IFile id) => inl (mkp n 0 (ins id (p_files p)) (p_origins p) (p_publics p) (p_url p))
-       | Some (IOrigin id) => inl (mkp n 0 (p_files p) (ins id (p_origins p)) (p_publics p) (p_url p))
-       | Some IPublic => inl (mkp n 0 (p_files p) (p_origins p) (p_publics p + 1) (p_url p))
-       | Some IFunc => inl (mkp n 1 (p_files p) (p_origins p) (p_publics p) (p_url p))
-       | Some IWin => inl (mkp n 0 (p_files p) (p_origins p) (p_publics p) (p_url p))
-       | Some ICfiInit => inl (mkp n 2 (p_files p) (p_origins p) (p_publics p) (p_url p))
+       | Some (IUrl u) =>
+           inl (mkp n CNone (p_modinfo p) (p_files p) (p_origins p) (p_publics p) (p_funcs p) (p_cfis p)
+                    (p_win_fd p) (p_win_fpo p) (Some u))
+       | Some IInfo => inl (set_lines_cur p n CNone)
+       | Some (IFile id nm) =>
+           inl (mkp n CNone (p_modinfo p) ((id, nm) :: p_files p) (p_origins p) (p_publics p) (p_funcs p)
+                    (p_cfis p) (p_win_fd p) (p_win_fpo p) (p_url p))
+       | Some (IOrigin id nm) =>
+           inl (mkp n CNone (p_modinfo p) (p_files p) ((id, nm) :: p_origins p) (p_publics p) (p_funcs p)
+                    (p_cfis p) (p_win_fd p) (p_win_fpo p) (p_url p))
+       | Some (IPublic pb) =>
+           inl (mkp n CNone (p_modinfo p) (p_files p) (p_origins p) (pb :: p_publics p) (p_funcs p)
+                    (p_cfis p) (p_win_fd p) (p_win_fpo p) (p_url p))
+       | Some (IFunc f) => inl (set_lines_cur p n (CFunc f))
+       | Some (IWin (FrameData i)) =>
+           inl (mkp n CNone (p_modinfo p) (p_files p) (p_origins p) (p_publics p) (p_funcs p) (p_cfis p)
+                    (i :: p_win_fd p) (p_win_fpo p) (p_url p))
+       | Some (IWin (Fpo i)) =>
+           inl (mkp n CNone (p_modinfo p) (p_files p) (p_origins p) (p_publics p) (p_funcs p) (p_cfis p)
+                    (p_win_fd p) (i :: p_win_fpo p) (p_url p))
+       | Some (IWin Unhandled) => inl (set_lines_cur p n CNone)
+       | Some (ICfiInit c) => inl (set_lines_cur p n (CCfi c))
        end.
 
 (* one line of parse_more *)
 Definition recog_pst (p : pst) (s : rle) : pst + Z :=
-  if p_cur p =? 1 then
-    match sub_func s with
-    | Some (Some id) => inl (mkp (p_lines p + 1) 1 (p_files p) (ins id (p_origins p)) (p_publics p) (p_url p))
-    | Some None => inl (bump_pst p)
-    | None => top p s        (* finish_item, then the top-level parser sees the same line *)
-    end
-  else if p_cur p =? 2 then
-    if sub_cfi s then inl (bump_pst p) else top p s
-  else top p s.
+  match p_cur p with
+  | CFunc f =>
+      match sub_func s with
+      | Some (SOrigin id nm) =>
+          inl (mkp (p_lines p + 1) (CFunc f) (p_modinfo p) (p_files p) ((id, nm) :: p_origins p) (p_publics p)
+                   (p_funcs p) (p_cfis p) (p_win_fd p) (p_win_fpo p) (p_url p))
+      | Some (SInline l) =>
+          inl (set_lines_cur p (p_lines p + 1)
+                 (CFunc (mk_fr (fr_addr f) (fr_size f) (fr_psize f) (fr_name f) (fr_lines f)
+                               (rev_append l (fr_inls f)))))
+      | Some (SLine l) =>
+          inl (set_lines_cur p (p_lines p + 1)
+                 (CFunc (mk_fr (fr_addr f) (fr_size f) (fr_psize f) (fr_name f) (l :: fr_lines f) (fr_inls f))))
+      | None => top (close_cur p) s     (* finish_item, then the top-level parser sees the same line *)
+      end
+  | CCfi c =>
+      match sub_cfi s with
+      | Some r => inl (set_lines_cur p (p_lines p + 1) (CCfi (mk_cfi (ci_init c) (ci_size c) (r :: ci_add c))))
+      | None => top (close_cur p) s
+      end
+  | CNone => top p s
+  end.
 
 Definition cllen (l : rle) : Z := rle_len l + 1.
+
+(* ------------------------------------------------------------------ finish_item / finish *)
+Definition str_lt (a b : rle) : bool := match rle_compare a b with Lt => true | _ => false end.
+Definition cmp_lt (c : comparison) (k : bool) : bool := match c with Lt => true | Eq => k | Gt => false end.
+(* derived Ord: PublicSymbol (address, name, parameter_size), CfiRules (address, rules) *)
+Definition pub_lt (a b : pub_sym) : bool :=
+  cmp_lt (pb_addr a ?= pb_addr b) (cmp_lt (rle_compare (pb_name a) (pb_name b)) (pb_psize a <? pb_psize b)).
+Definition rule_lt (a b : cfi_rule) : bool :=
+  cmp_lt (cr_addr a ?= cr_addr b) (str_lt (cr_rules a) (cr_rules b)).
+
+(* finished records *)
+Record sfunc := mk_sf { sf_addr : Z; sf_size : Z; sf_psize : Z; sf_name : rle;
+                        sf_lines : list (range * line_rec); sf_inls : list inl_rec }.
+Record scfi := mk_sc { sc_init : cfi_rule; sc_size : Z; sc_add : list cfi_rule }.
+
+Definition rule_eqb (a b : cfi_rule) : bool := (cr_addr a =? cr_addr b) && rle_eqb (cr_rules a) (cr_rules b).
+Definition scfi_eqb (a b : scfi) : bool :=
+  rule_eqb (sc_init a) (sc_init b) && (sc_size a =? sc_size b) && list_eqb rule_eqb (sc_add a) (sc_add b).
+Definition sfunc_eqb (a b : sfunc) : bool :=
+  (sf_addr a =? sf_addr b) && (sf_size a =? sf_size b) && (sf_psize a =? sf_psize b) &&
+  rle_eqb (sf_name a) (sf_name b) && list_eqb rline_eqb (sf_lines a) (sf_lines b) &&
+  list_eqb inl_eqb (sf_inls a) (sf_inls b).
+Definition thing_eqb (a b : win_thing) : bool :=
+  match a, b with
+  | ProgramString x, ProgramString y => rle_eqb x y
+  | AllocatesBasePointer x, AllocatesBasePointer y => Bool.eqb x y
+  | _, _ => false
+  end.
+Definition wi_eqb (a b : win_info) : bool :=
+  (wi_addr a =? wi_addr b) && (wi_size a =? wi_size b) && (wi_prolog a =? wi_prolog b) &&
+  (wi_epilog a =? wi_epilog b) && (wi_params a =? wi_params b) && (wi_saved a =? wi_saved b) &&
+  (wi_locals a =? wi_locals b) && (wi_maxstack a =? wi_maxstack b) && thing_eqb (wi_thing a) (wi_thing b).
+
+(* finish_item(Line::Function): line table (zero sizes dropped, trait into_rangemap_safe + RangeMap),
+   inlinees.retain(size > 0) + sort(), kept when memory_range() is Some *)
+Definition finish_func (fr : func_raw) : outcome (option (range * sfunc)) :=
+  do lines <- build line_eqb (line_entries (rev (fr_lines fr)));
+  let f := mk_sf (fr_addr fr) (fr_size fr) (fr_psize fr) (fr_name fr) lines
+                 (sort_by inl_lt (keep_inls true (rev (fr_inls fr)))) in
+  Ret (match mk_range (fr_addr fr) (fr_size fr) with Some r => Some (r, f) | None => None end).
+
+(* finish_item(Line::StackCfi): add_rules.sort() *)
+Definition finish_cfi (c : cfi_raw) : option (range * scfi) :=
+  match mk_range (cr_addr (ci_init c)) (ci_size c) with
+  | Some r => Some (r, mk_sc (ci_init c) (ci_size c) (sort_by rule_lt (rev (ci_add c))))
+  | None => None
+  end.
+
+Fixpoint finish_funcs (l : list func_raw) : outcome (list (range * sfunc)) :=
+  match l with
+  | [] => Ret []
+  | fr :: t => do x <- finish_func fr; do rest <- finish_funcs t;
+               Ret (match x with Some e => e :: rest | None => rest end)
+  end.
+Fixpoint keep_somes {A} (l : list (option A)) : list A :=
+  match l with [] => [] | Some a :: t => a :: keep_somes t | None :: t => keep_somes t end.
+
+(* insert_win_stack_info; [acc] is the vector reversed (head = last_mut()) *)
+Definition PANIC_WIN_UNWRAP : Z := 902.
+Definition wi_range (w : win_info) : option range := mk_range (wi_addr w) (wi_size w).
+Definition wi_set_size (i : win_info) (sz : Z) : win_info :=
+  mk_wi (wi_addr i) sz (wi_prolog i) (wi_epilog i) (wi_params i) (wi_saved i) (wi_locals i) (wi_maxstack i) (wi_thing i).
+Definition win_insert (acc : list (range * win_info)) (w : win_info) : outcome (list (range * win_info)) :=
+  match wi_range w with
+  | None => Ret acc
+  | Some mr =>
+      match acc with
+      | [] => Ret [(mr, w)]
+      | (lr, lw) :: acc' =>
+          if intersects lr mr then
+            if wi_addr w >? wi_addr lw then
+              let lw' := wi_set_size lw (wrap32 (wi_addr w - wi_addr lw)) in
+              match wi_range lw' with
+              | Some lr' => Ret ((mr, w) :: (lr', lw') :: acc')
+              | None => Panic PANIC_WIN_UNWRAP
+              end
+            else if negb (range_eqb lr mr) then Ret acc
+            else Ret ((mr, w) :: acc)
+          else Ret ((mr, w) :: acc)
+      end
+  end.
+Fixpoint win_collect (acc : list (range * win_info)) (ws : list win_info) : outcome (list (range * win_info)) :=
+  match ws with
+  | [] => Ret (rev acc)
+  | w :: t => do acc' <- win_insert acc w; win_collect acc' t
+  end.
+
+(* HashMap<u32, String> rendered canonically: ascending ids, the last insert of an id wins *)
+Fixpoint map_insert (k : Z) (v : rle) (m : list (Z * rle)) : list (Z * rle) :=
+  match m with
+  | [] => [(k, v)]
+  | (k0, v0) :: t => if k <? k0 then (k, v) :: m else if k =? k0 then (k, v) :: t else (k0, v0) :: map_insert k v t
+  end.
+Definition map_of_log (log : list (Z * rle)) : list (Z * rle) :=      (* log: latest first *)
+  fold_right (fun kv m => map_insert (fst kv) (snd kv) m) [] log.
+
+Record table := mk_table {
+  t_module_id : rle; t_debug_file : rle;
+  t_files : list (Z * rle); t_origins : list (Z * rle);
+  t_publics : list pub_sym;
+  t_funcs : list (range * sfunc);
+  t_cfi : list (range * scfi);
+  t_win_fd : list (range * win_info); t_win_fpo : list (range * win_info);
+  t_url : option rle
+}.
+
+(* SymbolParser::finish *)
+Definition finish (p0 : pst) : outcome table :=
+  let p := close_cur p0 in
+  do fl <- finish_funcs (rev (p_funcs p));
+  do funcs <- build_p sfunc_eqb fl;
+  do cfis <- build_p scfi_eqb (keep_somes (map finish_cfi (rev (p_cfis p))));
+  do wfd <- win_collect [] (rev (p_win_fd p));
+  do tfd <- build_p wi_eqb wfd;
+  do wfpo <- win_collect [] (rev (p_win_fpo p));
+  do tfpo <- build_p wi_eqb wfpo;
+  Ret (mk_table (fst (p_modinfo p)) (snd (p_modinfo p)) (map_of_log (p_files p)) (map_of_log (p_origins p))
+                (sort_by pub_lt (rev (p_publics p))) funcs cfis tfd tfpo (p_url p)).
 
 (* ------------------------------------------------------------------ bytes <-> lines *)
 (* every byte string is (uniquely) a list of '\n'-terminated lines plus a rest without '\n' *)
